@@ -622,6 +622,7 @@ def run_check(pid, tier, seed):
             'theorems': sorted(discharged),
             'all_theorems_in_namespace': len(theorems),
             'unproved': list(getattr(mod, 'UNPROVED', [])),
+            'unmodelled': list(getattr(mod, 'UNMODELLED', [])),
             'modelled_not_verified': list(getattr(mod, 'NOT_VERIFIED', [])),
             'evaluations': len(recs),
             'distinct_nontrivial': len(distinct),
